@@ -213,4 +213,53 @@ theorem at_drain {m : Mode} {a b : List Event} {s : State}
     simpa using this
   · cases h3
 
+/-! ### The HTTPS arm -/
+
+/-- Connect probes never change the state, in either arm. -/
+theorem stepTls_connect {m : Mode} {s s' : State} {e : Event} (hc : isConnectEvent e = true)
+    (h : stepTls m s e = some s') : s' = s := by
+  cases e <;> simp [isConnectEvent] at hc <;> simp only [stepTls] at h <;> split at h <;> simp_all
+
+theorem stepTls_other {m : Mode} {s : State} {e : Event} (hc : isConnectEvent e = false) :
+    stepTls m s e = step m s e := by
+  cases e <;> simp [isConnectEvent] at hc <;> rfl
+
+/-- **Transfer.**  An HTTPS trace, with its connect probes erased, is a trace of the plain
+protocol reaching the same state: everything proved about handlers, connections, the join
+and the waiters holds for the HTTPS arm as well. -/
+theorem runTls_erase {m : Mode} (tr : List Event) (s s' : State) (h : runTls m s tr = some s') :
+    run m s (tr.filter fun e => !isConnectEvent e) = some s' := by
+  induction tr generalizing s with
+  | nil => simpa [runTls, run] using h
+  | cons e tr ih =>
+    simp only [runTls] at h
+    cases hs : stepTls m s e with
+    | none => simp [hs] at h
+    | some s1 =>
+      simp only [hs] at h
+      by_cases hc : isConnectEvent e = true
+      · have e1 := stepTls_connect hc hs
+        rw [e1] at h
+        simpa [List.filter, hc] using ih s h
+      · have hc' : isConnectEvent e = false := by simpa using hc
+        rw [stepTls_other hc'] at hs
+        simp only [List.filter, hc', Bool.not_false, run, hs]
+        exact ih s1 h
+
+/-- Over HTTPS a connect is refused only after the accept loop has stopped … -/
+theorem tls_refused_needs_accept_stopped {m : Mode} {s s' : State}
+    (h : stepTls m s .connectRefused = some s') : s.phase ≠ .serving ∧ s.phase ≠ .closeRequested := by
+  simp only [stepTls] at h
+  split at h
+  · rename_i hp
+    constructor <;> intro e <;> simp [e, Phase.listenerClosedTls] at hp
+  · cases h
+
+/-- … and from then on none is accepted. -/
+theorem tls_no_accept_after_stop {m : Mode} {s : State}
+    (hp : s.phase ≠ .serving ∧ s.phase ≠ .closeRequested) : stepTls m s .connectAccepted = none := by
+  simp only [stepTls]
+  cases hph : s.phase <;> simp_all [Phase.listenerClosedTls]
+
+
 end Dropshot.Shutdown
